@@ -6,8 +6,8 @@ import time
 
 VERIF = os.path.dirname(os.path.dirname(os.path.abspath(__file__)))
 REPLAY = os.path.join(VERIF, 'replay')
-HAVE = {'C01', 'C03', 'C04', 'C05', 'C06', 'C08', 'C10', 'C12', 'C13', 'C14', 'C15', 'C19'}
-RIDS = {'C08': ['C08', 'C08Q']}     # replay-crate dispatch ids per property (default: the property id)
+HAVE = {'C01', 'C03', 'C04', 'C05', 'C06', 'C07', 'C08', 'C10', 'C12', 'C13', 'C14', 'C15', 'C19'}
+RIDS = {'C08': ['C08', 'C08Q'], 'C07': ['C04']}     # replay-crate dispatch ids per property (default: the property id)
 _cache = {}
 
 
